@@ -91,7 +91,7 @@ func (c *gcase) genInputs(r *rand.Rand, maxStrings, nLong int) {
 	nT := len(c.G.Tokens)
 	alphabet := make([]int, 0, nT+1)
 	for t := 0; t < nT; t++ {
-		if c.G.Tokens[t].Decl != "undeclared" && !c.G.Tokens[t].IsEOFAlias() {
+		if c.G.TokenExists(t) {
 			alphabet = append(alphabet, t)
 		}
 	}
